@@ -32,6 +32,11 @@ DEFAULTS = {"final_strategies": None, "reachability_strategies": None, "rewards"
 class Summary:
     def __init__(self, ctx):
         self.f = ctx.func(RUN)
+        # options of the batch run (a selectable list of modes, a switch that only validates, ...) are judged at their defaults:
+        # the property describes the plain batch run
+        from ..ctxbind import with_defaults
+        self.f, self.defaults = with_defaults(ctx, self.f, keep=1, accept=lambda v: v is None or isinstance(v, (bool, int, float, str)) or (
+            isinstance(v, (tuple, list)) and all(isinstance(x, (bool, int, float, str)) or x is None for x in v)))
         self.sx = SymX(ctx, self.f, inline_depth=2).run()      # helper functions are judged by their content
         loops = [l for l in self.sx.loops.values() if l.kind == "for"]
         self.outer = [l for l in loops if l.source[0] == "mcall" and l.source[2] == "items" and l.source[1] == ("v", self.f.params[0])] or \
